@@ -381,6 +381,29 @@ func (s *Sim) WaitUntil(point string, cond func() bool) {
 	s.park(t, point, cond, nil)
 }
 
+// VerifierDrained returns a predicate (usable as a WaitUntil condition: it
+// takes no locks) telling whether the verifier goroutine(s) belonging to ctx
+// have nothing left to do: report channel empty (as modelled from the
+// verifier.sent notifications) and every live library task of that context
+// parked at verifier.idle.
+func (s *Sim) VerifierDrained(ctx interface{}) func() bool {
+	m := s.ver(ctx)
+	return func() bool {
+		if m.chanLen > 0 {
+			return false
+		}
+		for _, t := range s.All {
+			if t == nil || t.Harness || t.dead || t.state == stDone || t.Ctx != ctx {
+				continue
+			}
+			if t.state != stParked || t.point != "verifier.idle" {
+				return false
+			}
+		}
+		return true
+	}
+}
+
 // Quiesce parks the calling task until no other task is runnable.
 func (s *Sim) Quiesce(point string) {
 	t := s.Current()
